@@ -172,10 +172,11 @@ template< typename T, typename E>
       mCurrElement()
 {
 
-   if (asEnd || (mArgC == 1))
+   if (asEnd || (mArgC <= 1))
    {
+      // an argument vector may be completely empty (argc == 0)
       mArgIndex   = mArgC + 1;
-      mArgCharPos = ::strlen( mpArgV[ mArgC - 1]) + 1;
+      mArgCharPos = (mArgC > 0) ? ::strlen( mpArgV[ mArgC - 1]) + 1 : 1;
    } else
    {
       mArgIndex         = 1;
